@@ -10,7 +10,7 @@ def rF(A, shape):
     return np.reshape(A, shape, order='F')
 
 
-def h_left_step(ctx, d, i, n, rl, rr, inplace):
+def h_left_step(ctx, d, i, n, rl, rr, inplace, layout='C'):
     """orthogonalize_left on core i := Q R (Q Householder frame, R arbitrary,
     rank deficient included); all other cores free."""
     ranks = [1] + [2] * (d - 1) + [1]
@@ -26,6 +26,8 @@ def h_left_step(ctx, d, i, n, rl, rr, inplace):
     M = Q @ R
     Y[i] = rF(M, (ranks[i], n, rr))
     expect(ctx, 'qr', M, (Q, R))
+    if layout == 'F':
+        Y = [np.asfortranarray(G) for G in Y]          # e.g. cores that came out of LAPACK
     Y0 = [G.copy() for G in Y]
     objs = list(Y)
     Z = teneva.orthogonalize_left(Y, i, inplace=inplace)
@@ -46,7 +48,7 @@ def h_left_step(ctx, d, i, n, rl, rr, inplace):
     ctx.canary('canary', ctx.all_eq(ref_full(Z), ref_full(Y0) * 2))
 
 
-def h_right_step(ctx, d, i, n, rl, rr, inplace):
+def h_right_step(ctx, d, i, n, rl, rr, inplace, layout='C'):
     ranks = [1] + [2] * (d - 1) + [1]
     ranks[i] = rl
     ranks[i + 1] = rr if i < d - 1 else 1
@@ -60,6 +62,8 @@ def h_right_step(ctx, d, i, n, rl, rr, inplace):
     M = R @ Q
     Y[i] = rF(M, (rl, n, ranks[i + 1]))
     expect(ctx, 'rq', M, (R, Q))
+    if layout == 'F':
+        Y = [np.asfortranarray(G) for G in Y]
     Y0 = [G.copy() for G in Y]
     objs = list(Y)
     Z = teneva.orthogonalize_right(Y, i, inplace=inplace)
@@ -242,8 +246,45 @@ def h_sweep_stab_quasi(ctx, d, n, k):
     h_orth_stab_quasi(ctx, d, n, k)
 
 
+def h_concrete_scales(ctx):
+    """Real code, cores with entries of order 1e+200 / 1e-200 (representable, but
+    their squares are not), rank-one and higher bonds: the sweep returns finite
+    cores with orthonormal unfoldings that denote the same tensor.  Supplementary:
+    exact arithmetic has no overflow."""
+    rng = np.random.default_rng(3)
+    ok_fin, ok_orth, ok_same = True, True, True
+    for ranks, scales in [([1, 1, 2, 1], [1e200, 1e-200, 1.]), ([1, 1, 1, 1], [1e-180, 1e180, 1.]),
+                          ([1, 2, 1, 1], [1e150, 1., 1e-150]), ([1, 2, 2, 1], [1e200, 1e-100, 1e-100])]:
+        n = [4, 3, 5]
+        Y = [rng.normal(size=(ranks[k], n[k], ranks[k + 1])) * scales[k] for k in range(3)]
+        F = teneva.full(Y)
+        for k in range(3):
+            for stab in (False, True):
+                try:
+                    res = teneva.orthogonalize(Y, k, use_stab=stab)
+                except (OverflowError, FloatingPointError, ValueError):
+                    ok_fin = False
+                    continue
+                Z, p = res if stab else (res, 0)
+                ok_fin = ok_fin and all(np.all(np.isfinite(G)) for G in Z)
+                for j in range(3):
+                    if j < k:
+                        U = Z[j].reshape(-1, Z[j].shape[2], order='F')
+                        ok_orth = ok_orth and bool(np.allclose(U.T @ U, np.eye(U.shape[1]), atol=1e-8))
+                    if j > k:
+                        V = Z[j].reshape(Z[j].shape[0], -1, order='F')
+                        ok_orth = ok_orth and bool(np.allclose(V @ V.T, np.eye(V.shape[0]), atol=1e-8))
+                if ok_fin:
+                    Fz = teneva.full(Z) * 2. ** p
+                    ok_same = ok_same and bool(np.linalg.norm(Fz - F) <= 1e-8 * np.linalg.norm(F))
+    ctx.claim('finite_cores', bool(ok_fin))
+    ctx.claim('orthonormal_unfoldings', bool(ok_orth))
+    ctx.claim('tensor_preserved', bool(ok_same))
+
+
 def instances(tier):
     out = []
+    out.append({'func': 'h_concrete_scales', 'params': {}, 'opts': {'concrete_only': True}})
     # single steps: (d, i, n, rl, rr): every combination of mode size 1..2 and
     # ranks 1..3 on both sides (tall, square, over-ranked, mode size 1)
     left = [(2, 0, 2, 1, 2), (2, 0, 2, 1, 3), (2, 0, 3, 1, 2), (2, 0, 1, 1, 2)]
@@ -264,6 +305,11 @@ def instances(tier):
     for (d, i, n, rl, rr) in right:
         for inplace in (False, True):
             out.append({'func': 'h_right_step', 'params': {'d': d, 'i': i, 'n': n, 'rl': rl, 'rr': rr, 'inplace': inplace}})
+    # Fortran-ordered cores (what LAPACK hands back): the order='F' unfoldings are views of the argument
+    for (d, i, n, rl, rr) in [(2, 0, 2, 1, 2), (3, 1, 2, 2, 2), (3, 1, 1, 2, 2)]:
+        out.append({'func': 'h_left_step', 'params': {'d': d, 'i': i, 'n': n, 'rl': rl, 'rr': rr, 'inplace': False, 'layout': 'F'}})
+    for (d, i, n, rl, rr) in [(2, 1, 2, 2, 1), (3, 1, 2, 2, 2), (3, 1, 1, 2, 2)]:
+        out.append({'func': 'h_right_step', 'params': {'d': d, 'i': i, 'n': n, 'rl': rl, 'rr': rr, 'inplace': False, 'layout': 'F'}})
     for d in (2, 3):
         out.append({'func': 'h_invalid_mode', 'params': {'d': d}})
     for d, n in ([(3, 2), (4, 2)] if tier == 'quick' else [(3, 2), (4, 2), (3, 3), (5, 2)]):
